@@ -776,11 +776,11 @@ def block_crossing_items(ctx):
             # task-based RHD, HydroDensitySubGrid overload: two hydro steps, the final snapshot is always written
             c = dict(layout=(1, 1, 1), cells=dims, live=True, total_time=0.004, snaptime=0.004)
             items.append(dict(name="rhd-writer-block-%s-%d-cells" % (rel, dims[0] * dims[1] * dims[2]), kind="rhd-block", param=rhd_param(c), threads=2,
-                              stages=[(["--task-based-rhd", "--number-of-steps", "2"], [r"snap\d+\.hdf5"])], san_quick=(rel == "above")))
+                              stages=[(["--task-based-rhd", "--number-of-steps", "2"], [r"snap\d+\.hdf5"])], san_quick=True))
             # task-based photoionization, DensitySubGrid overload of the same writer
             c = dict(layout=(1, 1, 1), cells=dims, writer="Gadget", photons=k["photon_buffer_size"] + 1, iterations=1, copy_level=0, ntasks=2000, nbuf=500, queue=1000)
             items.append(dict(name="tbi-writer-block-%s-%d-cells" % (rel, dims[0] * dims[1] * dims[2]), kind="tbi-block", param=tbi_param(c), threads=1,
-                              stages=[(["--task-based"], [r"snap\d+\.hdf5"])], san_quick=(rel == "above")))
+                              stages=[(["--task-based"], [r"snap\d+\.hdf5"])], san_quick=True))
         if ctx.thorough:
             d = dims_for(B, "above")
             if d:
